@@ -190,7 +190,7 @@ class GlsaDirSet(GenericEquality):
                     "fullver", values.StrGlobMatch(base.fullver)
                 )
             )
-        elif op.startswith("r") and not base.revision and op != "rgt":
+        elif op in ("rlt", "rle", "rge") and not base.revision:
             if op == "rlt":  # rlt -r0 can never match
                 # this is a non-range.
                 raise ValueError(
